@@ -772,7 +772,7 @@ typed:
 			return BVOp(op, x, y, signed)
 		}
 		if x.Sort.Kind == SInt {
-			tk := map[string]token.Token{"&": token.AND, "|": token.OR, "<<": token.SHL, ">>": token.SHR}[e.Op]
+			tk := map[string]token.Token{"&": token.AND, "|": token.OR, "<<": token.SHL, ">>": token.SHR, "&^": token.AND_NOT}[e.Op]
 			if tk != 0 {
 				return c.binop(env.st, nil, tk, x, y, types.Typ[types.Int], types.Typ[types.Int], types.Typ[types.Int])
 			}
@@ -1593,7 +1593,7 @@ func (c *Ctx) ghostAssign(env *SpecEnv, g GhostStmt) {
 	env.st.Ghost[g.Name] = v
 }
 
-func (c *Ctx) ghostAt(st *State, fr *Frame, at string) {
+func (c *Ctx) ghostAt(st *State, fr *Frame, at string, loop *Loop) {
 	sp := fr.Spec
 	if sp == nil {
 		return
@@ -1601,6 +1601,7 @@ func (c *Ctx) ghostAt(st *State, fr *Frame, at string) {
 	for _, g := range sp.Ghost {
 		if g.At == at {
 			env := c.specEnvFor(st, fr)
+			env.atLoop = loop
 			c.ghostAssign(env, g)
 		}
 	}
